@@ -35,6 +35,32 @@ theorem resolution_order (L : Layers ν) (k : String) :
     (L.lm.getWithLayerName k).map (·.1) = L.lm.get k :=
   ⟨getWithLayerName_lm L k, get_lm L k, FormulaicVerif.Props.C19.lm_named_lookup_consistent L.lm k⟩
 
+/-- C17.1a'  The caller's context may itself be a layered mapping (`capture_context()`, the frame
+capture of `model_matrix`, an explicit `LayeredMapping`). Whatever its nesting, a key that the data
+does not hold and the context does is reported with the value of its first binding inside the
+context (top first); and when no sub-layer of the context is named, the reported source is exactly
+`context` — an unnamed nested layer inherits the name of its closest named parent. -/
+theorem context_source (L : Layers ν) (k : String) (v : ν)
+    (hd : L.data.lookup k = none) (hc : (contextItems L).lookup k = some v) :
+    (∃ n, L.lm.getWithLayerName k = some (v, n)) ∧
+    (allUnnamed L.context = true → L.lm.getWithLayerName k = some (v, some "context")) := by
+  constructor
+  · have h1 := getWithLayerName_lm L k
+    have h2 := firstLayer_fst L k
+    rw [valueOf_eq, hd, hc] at h2
+    rw [h1]
+    cases hf : firstLayer L k with
+    | none => rw [hf] at h2; cases h2
+    | some p =>
+      rw [hf] at h2
+      simp only [Option.map, Option.some.injEq] at h2
+      exact ⟨p.2, by rw [← h2]⟩
+  · intro hu
+    rw [getWithLayerName_lm, firstLayer_context L hu k v hd hc]
+
+example : allUnnamed (ν := Nat) (.lm none [("a", 1)] [.lm none [] [.dict [("m", 2)]], .dict [("g", 3)]]) = true := by
+  decide
+
 /-- C17.1b  The source reported for a variable is where its value comes from. A looked-up factor
 gets the value and the name of the first layer containing its name (`NameError` if none does). In
 a Python factor every identifier is resolved through the back-quoted name it stands for, data >
@@ -53,7 +79,7 @@ theorem reported_source_is_first_layer (L : Layers ν) :
   ⟨lookupFactor_eq L, fun c hok =>
     ⟨resolve_evalEnv L c hok, fun k hk => layerName_evalEnv L c hok k (aliasVal_none_of L _ k hk)⟩⟩
 
-example : AliasOK (ν := Nat) ⟨[("a b", 1)], [], [], []⟩
+example : AliasOK (ν := Nat) ⟨[("a b", 1)], .dict [], [], []⟩
     ⟨.call (.name "log") [.name "a_b"] [], [("a_b", "a b")]⟩ :=
   ⟨by decide, by intro a ha; simp at ha; subst ha; decide, by intro o ho; simp [occs, chainOcc, occsList, occsKws] at ho; rcases ho with h | h <;> subst h <;> decide⟩
 
@@ -243,9 +269,10 @@ def ops0 : Ops Nat :=
   ⟨fun _ => 0, fun v _ => .ok (v + 100), fun f as _ => .ok (f + as.sum), fun _ v => .ok v,
     fun _ l r => .ok (l + r), fun v _ => .ok v, fun _ vs => vs.sum⟩
 
-/-- data `x`, `C`, `a b`, `x.y`; context `u`; the generated transforms; builtin `float` -/
+/-- data `x`, `C`, `a b`, `p.q`; context `LayeredMapping({u}, {w})` (the shape `capture_context()` produces); the generated
+transforms; builtin `float` -/
 def L0 : Layers Nat :=
-  ⟨[("x", 1), ("C", 2), ("a b", 3), ("p.q", 5)], [("u", 4)],
+  ⟨[("x", 1), ("C", 2), ("a b", 3), ("p.q", 5)], .lm none [] [.dict [("u", 4)], .dict [("w", 6)]],
     Gen.transformNames.map (fun n => (n, 1000)), [("float", 9)]⟩
 
 def valsOf (r : Except MatErr (List Nat × List Var)) : Option (List Nat) :=
@@ -322,8 +349,8 @@ example : reqOf (materialize ops0 L0 fQDot) = some [] ∧ usedColumns L0 fQDot =
 /- `Unshadowed` is needed: with `x` also bound by the context, removing the data column falls
 through to the context -/
 set_option maxRecDepth 4000 in
-example : failed (materialize ops0 ({ L0 with context := [("u", 4), ("x", 7)] }.remove "x") fGood) = false ∧
-    valsOf (materialize ops0 ({ L0 with context := [("u", 4), ("x", 7)] }.remove "x") fGood) = some [7, 1007] := by decide
+example : failed (materialize ops0 ({ L0 with context := .lm none [] [.dict [("u", 4)], .lm none [] [.dict [("x", 7)]]] }.remove "x") fGood) = false ∧
+    valsOf (materialize ops0 ({ L0 with context := .lm none [] [.dict [("u", 4)], .lm none [] [.dict [("x", 7)]]] }.remove "x") fGood) = some [7, 1007] := by decide
 
 /-- the wildcard on concrete input: `log(y) + `a b` ~ .` over columns x, y, C, `a b` -/
 example : (match Dot.expand ["x", "y", "C", "a b"]
